@@ -1,5 +1,5 @@
-(* C09 -- /proc/net/dev: per-interface exactness and totals *)
-From PV Require Import C09.Spec C09.Lib.
+(* C09 -- /proc/net/dev: per-interface exactness and totals, names being arbitrary bytes *)
+From PV Require Import C09.Spec C09.TextLemmas C09.Lib.
 
 Definition tup_nic (s : nicstat) : list Z :=
   [bytes_sent s; bytes_recv s; packets_sent s; packets_recv s; errin s; errout s; dropin s; dropout s].
@@ -10,17 +10,21 @@ Definition cols15 (i : knic) : list (nat * bytes) :=
         (8, tx_bytes i); (7, tx_packets i); (4, tx_errs i); (4, tx_drop i); (4, tx_fifo i);
         (5, tx_colls i); (7, tx_carrier i); (10, tx_compressed i)]%nat.
 
-(* the counters part of a line, without the final newline *)
-Definition rest' (n0 : nat) (i : knic) : bytes := repeat 32 n0 ++ rx_bytes i ++ sp_items (cols15 i).
+(* blanks before the first counter *)
+Definition n0_of (sp : bool) (i : knic) : nat :=
+  if sp then S (7 - length (rx_bytes i)) else (8 - length (rx_bytes i))%nat.
+(* the counters part of a line, without the final newline (ASCII) *)
+Definition rest' (sp : bool) (i : knic) : bytes := repeat 32 (n0_of sp i) ++ rx_bytes i ++ sp_items (cols15 i).
+(* the decoded line without its newline *)
+Definition tbody (sp : bool) (i : knic) : text :=
+  (repeat 32 (6 - length (n_name i)) ++ dec (n_name i)) ++ 58 :: rest' sp i.
 
 Lemma line_shape sp i :
-  exists n0, k_netdev_line sp i = (pad 6 (n_name i) ++ 58 :: rest' n0 i) ++ [10].
+  k_netdev_line sp i = (pad 6 (n_name i) ++ 58 :: rest' sp i) ++ [10].
 Proof.
-  unfold k_netdev_line, rest'. fold (cols15 i). destruct sp.
-  - exists (S (7 - length (rx_bytes i))). unfold pad. cbn [repeat].
-    rewrite <- !app_assoc. cbn [app]. rewrite <- !app_assoc. reflexivity.
-  - exists (8 - length (rx_bytes i))%nat. unfold pad.
-    rewrite <- !app_assoc. cbn [app]. rewrite <- !app_assoc. reflexivity.
+  unfold k_netdev_line, rest', n0_of. fold (cols15 i). destruct sp.
+  - unfold pad. cbn [repeat]. rewrite <- !app_assoc. cbn [app]. rewrite <- !app_assoc. reflexivity.
+  - unfold pad. rewrite <- !app_assoc. cbn [app]. rewrite <- !app_assoc. reflexivity.
 Qed.
 
 Lemma counters_cols15 i : rx_bytes i :: map snd (cols15 i) = nic_counters i.
@@ -28,67 +32,89 @@ Proof. unfold cols15. rewrite map_snd_cols. reflexivity. Qed.
 
 Lemma wf_nic_inv i :
   wf_nic i = true ->
-  name_ok (n_name i) = true /\ is_dec (rx_bytes i) = true /\ forallb is_dec (map snd (cols15 i)) = true
+  uends_ok (dec (n_name i)) = true /\ contains 10 (dec (n_name i)) = false
+  /\ contains 13 (dec (n_name i)) = false
+  /\ is_dec (rx_bytes i) = true /\ forallb is_dec (map snd (cols15 i)) = true
   /\ forallb is_dec (nic_counters i) = true.
 Proof.
-  unfold wf_nic. intros H. apply andb_true_iff in H as [Hn Hc]. repeat split; try assumption.
+  unfold wf_nic, net_name_ok. intros H. apply andb_true_iff in H as [Hn Hc].
+  apply andb_true_iff in Hn as [Hn H13]. apply andb_true_iff in Hn as [Hn H10].
+  apply negb_true_iff in H10. apply negb_true_iff in H13.
+  repeat split; try assumption.
   - rewrite <- counters_cols15 in Hc. cbn [forallb] in Hc. now apply andb_true_iff in Hc as [H1 _].
   - rewrite <- counters_cols15 in Hc. cbn [forallb] in Hc. now apply andb_true_iff in Hc as [_ H2].
 Qed.
 
-Lemma rest'_all P n0 i :
+Lemma rest'_all P sp i :
   P 32 = true -> (forall c, is_digit c = true -> P c = true) -> wf_nic i = true ->
-  forallb P (rest' n0 i) = true.
+  forallb P (rest' sp i) = true.
 Proof.
-  intros H32 Hd Hwf. destruct (wf_nic_inv i Hwf) as (_ & Hrx & Hcols & _).
+  intros H32 Hd Hwf. destruct (wf_nic_inv i Hwf) as (_ & _ & _ & Hrx & Hcols & _).
   unfold rest'. rewrite !forallb_app. rewrite forallb_repeat by exact H32.
   rewrite (dec_all P _ Hd Hrx). rewrite forallb_sp_items; [reflexivity|exact H32|].
   now apply decs_all.
 Qed.
 
-Lemma body_all P n0 i :
-  P 32 = true -> P 58 = true -> (forall c, is_graph c = true -> P c = true) -> wf_nic i = true ->
-  forallb P (pad 6 (n_name i) ++ 58 :: rest' n0 i) = true.
+Lemma rest'_ascii sp i : wf_nic i = true -> forallb is_ascii (rest' sp i ++ [10]) = true.
 Proof.
-  intros H32 H58 Hg Hwf. destruct (wf_nic_inv i Hwf) as (Hn & _).
-  apply name_ok_inv in Hn as [_ Hn].
-  rewrite forallb_app. rewrite forallb_pad; [|exact H32|exact (forallb_imp _ _ _ Hg Hn)].
-  cbn [forallb andb]. rewrite H58. cbn [andb].
-  apply rest'_all; auto. intros c Hc. apply Hg. now apply digit_graph.
+  intros H. rewrite forallb_app, rest'_all; [reflexivity|reflexivity|exact digit_ascii|exact H].
 Qed.
 
-Lemma split_rest n0 i : wf_nic i = true -> split_ws (rest' n0 i ++ [10]) = nic_counters i.
+Lemma dec_line sp i : wf_nic i = true -> dec (k_netdev_line sp i) = tbody sp i ++ [10].
 Proof.
-  intros Hwf. destruct (wf_nic_inv i Hwf) as (_ & Hrx & Hcols & _).
-  unfold rest'. rewrite <- !app_assoc. rewrite split_ws_repeat.
-  rewrite split_ws_tok_app; [|now apply is_dec_tok_ok|now apply starts_ws_sp_items].
-  rewrite split_ws_sp_items; [|now apply decs_tok_ok|reflexivity].
-  change (split_ws [10]) with (@nil bytes). rewrite app_nil_r. apply counters_cols15.
+  intros H. rewrite line_shape. unfold pad, tbody. rewrite <- !app_assoc. cbn [app].
+  rewrite dec_ascii_app by (apply forallb_repeat; reflexivity).
+  rewrite dec_app_ascii by lia.
+  change (rest' sp i ++ [10]) with (rest' sp i ++ [10]).
+  now rewrite (dec_ascii _ (rest'_ascii sp i H)).
+Qed.
+
+Lemma tbody_no_break b sp i :
+  b = 10 \/ b = 13 -> wf_nic i = true -> contains b (tbody sp i) = false.
+Proof.
+  intros Hb Hwf. destruct (wf_nic_inv i Hwf) as (_ & H10 & H13 & _).
+  unfold tbody. rewrite !contains_app, contains_cons.
+  rewrite contains_repeat by (destruct Hb; subst; reflexivity).
+  assert (contains b (dec (n_name i)) = false) as -> by (destruct Hb; subst; assumption).
+  assert (b =? 58 = false) as -> by (destruct Hb; subst; reflexivity).
+  cbn [orb]. apply contains_false_forallb. apply rest'_all; [destruct Hb; subst; reflexivity| |exact Hwf].
+  intros c Hc. unfold is_digit in Hc. destruct Hb; subst; lia.
+Qed.
+
+Lemma split_rest sp i : wf_nic i = true -> usplit (rest' sp i ++ [10]) = nic_counters i.
+Proof.
+  intros Hwf. destruct (wf_nic_inv i Hwf) as (_ & _ & _ & Hrx & Hcols & _).
+  unfold rest'. rewrite <- !app_assoc. rewrite usplit_repeat.
+  rewrite usplit_tok_app; [|now apply is_dec_utok|now apply ustarts_sp_items].
+  rewrite usplit_sp_items; [|now apply decs_utok|reflexivity].
+  change (usplit [10]) with (@nil text). rewrite app_nil_r. apply counters_cols15.
 Qed.
 
 Lemma net_line_printed sp i :
-  wf_nic i = true -> net_line (k_netdev_line sp i) = Val (n_name i, tup_nic (spec_nic i)).
+  wf_nic i = true -> net_line (tbody sp i ++ [10]) = XV (Val (dec (n_name i), tup_nic (spec_nic i))).
 Proof.
-  intros Hwf. destruct (line_shape sp i) as [n0 E]. rewrite E. clear E.
-  destruct (wf_nic_inv i Hwf) as (Hn & _ & _ & Hall).
-  rewrite <- app_assoc. cbn [app].
+  intros Hwf. destruct (wf_nic_inv i Hwf) as (Hn & _ & _ & _ & _ & Hall).
+  unfold tbody. rewrite <- app_assoc. cbn [app].
+  set (pre := repeat 32 (6 - length (n_name i)) ++ dec (n_name i)).
   unfold net_line.
-  rewrite (rfind_byte_app 58 (pad 6 (n_name i)) (rest' n0 i ++ [10])).
+  rewrite (rfind_byte_app 58 pre (rest' sp i ++ [10])).
   2:{ apply contains_false_forallb. rewrite forallb_app. rewrite rest'_all; auto.
       intros c Hc. unfold is_digit in Hc. lia. }
-  assert (L : Nat.eqb (length (pad 6 (n_name i))) 0 = false).
-  { unfold pad. rewrite app_length. destruct (n_name i) as [|c n]; [discriminate|].
+  assert (L : Nat.eqb (length pre) 0 = false).
+  { unfold pre. rewrite app_length. destruct (dec (n_name i)) as [|c n]; [discriminate|].
     cbn [length]. rewrite Nat.add_succ_r. reflexivity. }
   rewrite L. cbv zeta.
   rewrite firstn_app_len, skipn_app_len.
-  unfold pad. rewrite strip_pad by (now apply name_tok_ok).
-  rewrite split_ws_strip, (split_rest n0 i Hwf).
-  rewrite (mapM_py_int_dec _ Hall). cbn [obind]. reflexivity.
+  unfold pre. rewrite ustrip_pad by exact Hn.
+  rewrite usplit_strip, (split_rest sp i Hwf).
+  rewrite (mapM_py_int_str_dec _ Hall). cbn [obind]. reflexivity.
 Qed.
 
-Lemma hdr_lines : contains 10 netdev_hdr1 = false /\ contains 10 netdev_hdr2 = false
-                  /\ ascii_ok (netdev_hdr1 ++ [10]) = true /\ ascii_ok (netdev_hdr2 ++ [10]) = true.
-Proof. vm_compute. auto. Qed.
+Lemma hdr_facts :
+  forallb is_ascii (netdev_hdr1 ++ [10]) = true /\ forallb is_ascii (netdev_hdr2 ++ [10]) = true
+  /\ contains 10 netdev_hdr1 = false /\ contains 13 netdev_hdr1 = false
+  /\ contains 10 netdev_hdr2 = false /\ contains 13 netdev_hdr2 = false.
+Proof. vm_compute. auto 10. Qed.
 
 Lemma k_netdev_concat sp l :
   k_netdev sp l = concat ((netdev_hdr1 ++ [10]) :: (netdev_hdr2 ++ [10]) :: map (k_netdev_line sp) l).
@@ -96,54 +122,39 @@ Proof. reflexivity. Qed.
 
 Lemma lines_netdev sp l :
   forallb wf_nic l = true ->
-  lines_keep (k_netdev sp l) = (netdev_hdr1 ++ [10]) :: (netdev_hdr2 ++ [10]) :: map (k_netdev_line sp) l.
+  lines_keep (text_of (k_netdev sp l))
+  = (netdev_hdr1 ++ [10]) :: (netdev_hdr2 ++ [10]) :: map (fun i => tbody sp i ++ [10]) l.
 Proof.
-  intros Hwf. rewrite k_netdev_concat. apply lines_keep_concat.
-  intros x [<-|[<-|Hin]].
-  - exists netdev_hdr1. split; [reflexivity|apply hdr_lines].
-  - exists netdev_hdr2. split; [reflexivity|apply hdr_lines].
-  - apply in_map_iff in Hin as [i [<- Hi]].
-    assert (Hw : wf_nic i = true) by (rewrite forallb_forall in Hwf; now apply Hwf).
-    destruct (line_shape sp i) as [n0 E]. rewrite E. eexists. split; [reflexivity|].
-    apply contains_false_forallb. apply body_all; auto.
-    intros c Hc. unfold is_graph in Hc. lia.
+  intros Hwf. rewrite k_netdev_concat. rewrite forallb_forall in Hwf.
+  destruct hdr_facts as (A1 & A2 & C1 & C2 & C3 & C4).
+  apply text_lines.
+  - intros x [<-|[<-|Hin]]; [eauto|eauto|].
+    apply in_map_iff in Hin as [i [<- Hi]]. rewrite line_shape. eauto.
+  - cbn [map]. rewrite (dec_ascii _ A1), (dec_ascii _ A2). do 2 f_equal.
+    rewrite map_map. apply map_ext_in. intros i Hi. apply dec_line. now apply Hwf.
+  - intros t [<-|[<-|Hin]]; [eauto|eauto|].
+    apply in_map_iff in Hin as [i [<- Hi]]. eexists. split; [reflexivity|].
+    split; apply tbody_no_break; auto.
 Qed.
 
-Lemma forallb_concat {A} (P : A -> bool) ls :
-  (forall l, In l ls -> forallb P l = true) -> forallb P (concat ls) = true.
-Proof.
-  induction ls as [|l ls IH]; intros H; [reflexivity|]. cbn [concat]. rewrite forallb_app.
-  rewrite (H l (or_introl eq_refl)). apply IH. intros x Hx. apply H. now right.
-Qed.
-
-Lemma ascii_netdev sp l : forallb wf_nic l = true -> ascii_ok (k_netdev sp l) = true.
-Proof.
-  intros Hwf. rewrite k_netdev_concat. unfold ascii_ok. apply forallb_concat.
-  intros x [<-|[<-|Hin]]; [apply hdr_lines|apply hdr_lines|].
-  apply in_map_iff in Hin as [i [<- Hi]].
-  assert (Hw : wf_nic i = true) by (rewrite forallb_forall in Hwf; now apply Hwf).
-  destruct (line_shape sp i) as [n0 E]. rewrite E. rewrite forallb_app.
-  rewrite body_all; auto. intros c Hc. unfold is_graph in Hc. unfold ascii_ok_byte. lia.
-Qed.
-
-Definition nic_kv (i : knic) : bytes * list Z := (n_name i, tup_nic (spec_nic i)).
+Definition nic_kv (i : knic) : text * list Z := (dec (n_name i), tup_nic (spec_nic i)).
 
 Lemma net_fold_lines sp l : forall acc,
   forallb wf_nic l = true ->
-  net_fold acc (map (k_netdev_line sp) l)
-  = Val (fold_left (fun d kv => dset (fst kv) (snd kv) d) (map nic_kv l) acc).
+  net_fold acc (map (fun i => tbody sp i ++ [10]) l)
+  = XV (Val (fold_left (fun d kv => dset (fst kv) (snd kv) d) (map nic_kv l) acc)).
 Proof.
   induction l as [|i l IH]; intros acc H; [reflexivity|].
   cbn [forallb] in H. apply andb_true_iff in H as [Hi Hl].
-  cbn [map net_fold fold_left]. rewrite (net_line_printed sp i Hi). cbn [obind]. now apply IH.
+  cbn [map net_fold fold_left]. rewrite (net_line_printed sp i Hi). cbn [xbind]. now apply IH.
 Qed.
 
 Lemma net_raw_printed sp l :
-  wf_nics l = true -> net_raw (k_netdev sp l) = Val (map nic_kv l).
+  wf_nics l = true -> net_raw (k_netdev sp l) = XV (Val (map nic_kv l)).
 Proof.
   unfold wf_nics. intros H. apply andb_true_iff in H as [Hwf Hnd].
-  unfold net_raw. rewrite (ascii_netdev sp l Hwf), (lines_netdev sp l Hwf). cbn [skipn].
-  rewrite (net_fold_lines sp l [] Hwf). f_equal.
+  unfold net_raw. rewrite (lines_netdev sp l Hwf). cbn [skipn].
+  rewrite (net_fold_lines sp l [] Hwf). do 2 f_equal.
   rewrite fold_dset_nodup; [reflexivity| |intros k _ []].
   rewrite map_map. cbn [nic_kv fst]. now apply nodupb_NoDup.
 Qed.
@@ -161,19 +172,19 @@ Proof.
 Qed.
 
 Theorem net_exact sp l pernic :
-  wf_nics l = true -> net_io_counters pernic (k_netdev sp l) = Val (spec_net pernic l).
+  wf_nics l = true -> net_io_counters pernic (k_netdev sp l) = XV (Val (spec_net pernic l)).
 Proof.
-  intros H. unfold net_io_counters. rewrite (net_raw_printed sp l H). cbn [obind].
+  intros H. unfold net_io_counters. rewrite (net_raw_printed sp l H). cbn [xbind]. f_equal.
   unfold nic_kv, spec_net. destruct pernic.
-  - apply (front_per snetio_fields n_name (fun i => tup_nic (spec_nic i)) (fun i => nt_nic (spec_nic i))).
+  - apply (front_per snetio_fields (fun i => dec (n_name i)) (fun i => tup_nic (spec_nic i))
+                     (fun i => nt_nic (spec_nic i))).
     reflexivity.
   - destruct l as [|i l]; [reflexivity|].
-    apply (front_total snetio_fields n_name (fun i => tup_nic (spec_nic i))); [discriminate|].
+    apply (front_total snetio_fields (fun i => dec (n_name i)) (fun i => tup_nic (spec_nic i))); [discriminate|].
     rewrite <- (map_map spec_nic tup_nic). rewrite col_sums_nic by discriminate. reflexivity.
 Qed.
 
-(* the per-interface answer names every listed interface, in kernel order, with the
-   eight documented fields taken from kernel columns 9,1,10,2,3,11,4,12 *)
+(* names with ':' and digits, a 2^64-1 counter *)
 Example net_example :
   let i1 := Build_knic (bs "eth0:1") (bs "1") (bs "2") (bs "3") (bs "4") (bs "5") (bs "6") (bs "7") (bs "8")
                        (bs "18446744073709551615") (bs "10") (bs "11") (bs "12") (bs "13") (bs "14") (bs "15") (bs "16") in
@@ -181,5 +192,29 @@ Example net_example :
                        (bs "1") (bs "2") (bs "0") (bs "7") (bs "0") (bs "0") (bs "0") (bs "0") in
   wf_nics [i1; i2] = true /\
   net_io_counters false (k_netdev true [i1; i2])
-  = Val (RTuple (nt_nic (Build_nicstat 18446744073709551616 101 12 202 3 11 4 19))).
+  = XV (Val (RTuple (nt_nic (Build_nicstat 18446744073709551616 101 12 202 3 11 4 19)))).
 Proof. vm_compute. auto. Qed.
+
+(* a non-ASCII name ("wl\xc3\xa9\xe2\x82\xac0" = wlé€0), an undecodable byte (0xff), a blank inside *)
+Example net_example_bytes :
+  let c := [bs "1"; bs "2"; bs "3"; bs "4"; bs "5"; bs "6"; bs "7"; bs "8";
+            bs "9"; bs "10"; bs "11"; bs "12"; bs "13"; bs "14"; bs "15"; bs "16"] in
+  let mk n := Build_knic n (bs "1") (bs "2") (bs "3") (bs "4") (bs "5") (bs "6") (bs "7") (bs "8")
+                         (bs "9") (bs "10") (bs "11") (bs "12") (bs "13") (bs "14") (bs "15") (bs "16") in
+  let l := [mk [119; 108; 195; 169; 226; 130; 172; 48]; mk [101; 255; 49]; mk [97; 31; 98]] in
+  wf_nics l = true /\
+  map n_name l <> map (fun i => dec (n_name i)) l /\
+  net_io_counters true (k_netdev true l) = XV (Val (spec_net true l)).
+Proof. vm_compute. repeat split; congruence. Qed.
+
+(* finding: the kernel accepts the interface name "eth0\x1f" (dev_valid_name: 0x1f is no kernel
+   blank), str.strip() removes the trailing U+001F: the interface is reported as "eth0" *)
+Definition nic_us : knic :=
+  Build_knic (bs "eth0" ++ [31]) (bs "1") (bs "2") (bs "3") (bs "4") (bs "5") (bs "6") (bs "7") (bs "8")
+             (bs "9") (bs "10") (bs "11") (bs "12") (bs "13") (bs "14") (bs "15") (bs "16").
+Theorem net_name_strip_refuted :
+  exists i,
+    dev_valid_name (n_name i) = true /\ forallb is_dec (nic_counters i) = true /\
+    spec_net true [i] = RDict [(bs "eth0" ++ [31], nt_nic (spec_nic i))] /\
+    net_io_counters true (k_netdev true [i]) = XV (Val (RDict [(bs "eth0", nt_nic (spec_nic i))])).
+Proof. exists nic_us. repeat split; vm_compute; reflexivity. Qed.
